@@ -53,7 +53,7 @@ PROPS["C15"] = dict(
     explanation=MIX)
 PROPS["C16"] = dict(
     level="other", claimed=True,
-    level_text="Kani: overlaps_with is equivalent to 'a common named step exists' (bounded in trace length); validate_trace_length / get_num_steps / the single, periodic and sequence constructors accept exactly the well-formed assertions; ConstraintDivisor numerators, exemptions and evaluate_at on bounded domains. Native bounded stand-in for BoundaryConstraints::new (BTreeMap / BTreeSet code): overlapping assertions are refused in every listing order; group divisors vanish exactly on the asserted steps and every constraint compares its cell with the asserted value, for all ordered pairs of assertions on trace lengths 8, 16, 32.",
+    level_text="Verus (body cut out of /repo): overlaps_with is true exactly when the two assertions name a common step of the same column, for every power-of-two trace length and all well-formed single / periodic / sequence shapes; Kani: the same with a counterexample for trace lengths <= 32; validate_trace_length / get_num_steps / the single, periodic and sequence constructors accept exactly the well-formed assertions; ConstraintDivisor numerators, exemptions and evaluate_at on bounded domains. Native bounded stand-in for BoundaryConstraints::new (BTreeMap / BTreeSet code): overlapping assertions are refused in every listing order; group divisors vanish exactly on the asserted steps and every constraint compares its cell with the asserted value, for all ordered pairs of assertions on trace lengths 8, 16, 32.",
     level_note='Bounded (stated per obligation / stand-in). Not decided: divisor zero sets and value polynomials for all domain sizes; set_num_transition_exemptions beyond the exercised values.',
     explanation=MIX)
 
@@ -82,12 +82,15 @@ PROPS["C03"] = dict(
 
 PROPS["C20"] = dict(
     level="other", claimed=True,
-    level_text="Bounded stand-in only (native execution of the real functions against a naive reference written in the check): "
-               "every polynomial and batch-utility function agrees with its defining identity on the enumerated space. No "
-               "deductive contract: the bodies are iterator / closure chains over generic field elements, which the installed "
-               "Verus rejects, and equalities of field products are beyond CBMC.",
-    level_note="Bounded as stated in coverage.native_bounded_standins; nothing is proved for all inputs. The field operations "
-               "themselves are C07's / C08's.",
+    level_text="Verus, bodies cut out of /repo, against an abstract coefficient structure (uninterpreted +, -, *; no axiom used, so "
+               "the result covers base and extension fields): polynom::add / sub / mul / mul_by_scalar return, for every length and "
+               "every coefficient value, exactly the coefficient-wise sum / difference, the schoolbook convolution and the scaled "
+               "coefficients; degree_of returns the index of the last non-zero coefficient; fill_power_series (behind get_power_series*) "
+               "writes start * base^i. Everything else - eval, division (long and synthetic), interpolation, expansion from roots, "
+               "in-place accumulation, batch inversion - is written with iterator adapters / mem::swap / macros that the installed Verus "
+               "rejects and rests on the bounded stand-in (native execution against a naive reference written in the check).",
+    level_note="The stand-in part is bounded as stated in coverage.native_bounded_standins and proves nothing. That E's operations are "
+               "those of a field is C07's / C08's. polynom::mul is proved for non-empty operands (it underflows on two empty ones).",
     explanation=MIX)
 
 PROPS["C09"] = dict(
